@@ -20,26 +20,15 @@ where
     Ok(T::deserialize(de).unwrap_or_default())
 }
 
-#[derive(Debug, Default)]
+/// An element of a list whose unknown values must be ignored.
+///
+/// Being untagged, the element is first read in full, so a value that does not match `T` is
+/// skipped as a whole and errors of the underlying data (e.g. truncation) are not swallowed.
+#[derive(Debug, Deserialize)]
+#[serde(untagged)]
 enum PossiblyUnknown<T> {
     Some(T),
-    #[default]
-    None,
-}
-
-impl<'de, T> Deserialize<'de> for PossiblyUnknown<T>
-where
-    T: Deserialize<'de>,
-{
-    fn deserialize<D>(de: D) -> Result<Self, D::Error>
-    where
-        D: Deserializer<'de>,
-    {
-        Ok(match T::deserialize(de) {
-            Ok(val) => Self::Some(val),
-            Err(_) => Self::None,
-        })
-    }
+    None(serde::de::IgnoredAny),
 }
 
 pub(crate) fn ignore_unknown_opt_vec<'de, D, T>(de: D) -> Result<Option<Vec<T>>, D::Error>
